@@ -10,7 +10,7 @@ export VERIF_ROOT=$ROOT
 patch="$(readlink -f "$1")"; shift
 wt=/tmp/trial-wt-$$
 git -C /repo worktree add -q --detach $wt HEAD || exit 2
-trap 'git -C /repo worktree remove --force '$wt' >/dev/null 2>&1; rm -rf '$wt' /tmp/trial-$$.mod /tmp/trial-$$.sum' EXIT
+trap 'git -C /repo worktree remove --force '$wt' >/dev/null 2>&1; rm -rf '$wt' /tmp/trial-$$.mod /tmp/trial-$$.sum '$ROOT'/.work/bin/*-alt-trial-$$* '$ROOT'/.work/run/*-alt-trial-$$*' EXIT
 (cd $wt && git apply "$patch") || { echo "trial: patch does not apply"; exit 2; }
 if ! (cd $wt && go build ./... >/dev/null 2>&1); then echo "trial: patched tree does not build"; exit 2; fi
 if (cd $wt && go test -vet=off -count=1 ./... >/tmp/trial.suite.$$ 2>&1); then echo "suite: passes with the patch"; else echo "suite: FAILS with the patch"; grep -E '^(---|FAIL)' /tmp/trial.suite.$$ | head; fi
